@@ -17,6 +17,9 @@ deriving DecidableEq, Repr
 
 abbrev R := Except Err
 
+-- `Except` has no `DecidableEq` in core; closed examples need one.
+deriving instance DecidableEq for Except
+
 /-- `b[i]` -/
 def idx (b : Bytes) (i : Nat) (site : String) : R UInt8 :=
   match b[i]? with
